@@ -56,7 +56,12 @@ ObsInit(cap) ==
 Init == /\ l = 1 /\ o = ObsInit(1) /\ stk = <<>> /\ bad = <<>> /\ nbad = 0 /\ done = FALSE
 
 Ev == Tr[l]
-Flag(rules) == /\ bad' = (IF Len(bad) < 100 THEN bad \o [i \in 1..Len(rules) |-> <<rules[i], l>>] ELSE bad)
+\* at most 20 entries per rule are kept (so that frequent refusals of one rule never hide another rule's)
+Count(b, name) == Cardinality({j \in 1..Len(b) : b[j][1] = name})
+RECURSIVE AddAll(_, _, _)
+AddAll(b, rules, i) == IF i > Len(rules) THEN b
+                       ELSE AddAll(IF Count(b, rules[i]) < 20 THEN Append(b, <<rules[i], l>>) ELSE b, rules, i + 1)
+Flag(rules) == /\ bad' = AddAll(bad, rules, 1)
                /\ nbad' = nbad + Len(rules)
 NoFlag == bad' = bad /\ nbad' = nbad
 InBuf(off, n) == off >= 0 /\ n >= 0 /\ off + n <= o.cap
@@ -153,8 +158,11 @@ Step ==
                            /\ o' = DoRUnmap(Ev.r, Ev.c) /\ stk' = stk
        [] e = "Hang"    -> /\ Flag(IF Ev.wasleep /\ ~o.acc THEN <<"HangWriterAsleepWhileRefusing">>
                                     ELSE IF Ev.wasleep /\ AllDrained THEN <<"HangWriterAsleepWhileDrained">>
-                                    ELSE <<"HangOther">>)
+                                    ELSE <<>>)   \* a writer may wait for good for readers that stopped reading
                            /\ o' = o /\ stk' = stk
+       \* the writer was asleep at a deadlock and obtained its region after a mere spurious wake-up: it had been blocked
+       \* although the channel itself grants the request (a lost wake-up)
+       [] e = "LostWakeup" -> /\ Flag(<<"WriterAsleepThoughGrantable">>) /\ o' = o /\ stk' = stk
        [] e \in {"End", "Sched"} -> /\ NoFlag /\ o' = o /\ stk' = stk
        [] OTHER         -> /\ Flag(<<"UnknownEvent">>) /\ o' = o /\ stk' = stk
 
